@@ -1060,8 +1060,10 @@ class MaterialIndexer(Indexer):
                     phase, index = index
                     sparse_data = self.data
                     group_compositions = self.group_compositions
+                    ndim = get_ndim(data)
                     for n, i in enumerate(index):
-                        sparse_data[:, i] = data[n] * group_compositions[key[n]] if i.__class__ is list else data[n]
+                        value = data[n] if ndim else data
+                        sparse_data[:, i] = value * group_compositions[key[n]] if i.__class__ is list else value
                 else:
                     raise IndexError('invalid index kind')
             else:
